@@ -1,4 +1,4 @@
-\* behaviour export (two faults, three runs): objects {1, 2}, <= 3 server versions, 3 client runs, <= 2 faults, ETag {TRUE, FALSE}
+\* behaviour export (two faults, three runs, the first one free of faults): objects {1, 2}, <= 3 server versions, 3 client runs, <= 2 faults, ETag {TRUE, FALSE}
 \* (Variant comes from the environment variable RRDP_VARIANT, default as_shipped)
 SPECIFICATION GSpec
 CONSTANTS
@@ -10,5 +10,6 @@ CONSTANTS
   WithExpiry = FALSE
   Variant <- GenVariant
 CONSTRAINT Stop
+CONSTRAINT FirstRunClean
 INVARIANT Emit
 CHECK_DEADLOCK FALSE
